@@ -466,6 +466,30 @@ func genC03(e *emitter, tier string, seed uint64) map[string]interface{} {
 			}
 		}
 	}
+	// the same for bodies whose length needs all three bytes of the length field (65536 and beyond): the field, the other multi-byte
+	// header fields and the trailer land on every position around the physical end of an exactly-fitting ring
+	for _, version := range []int{1, 2} {
+		for typ := 1; typ <= 3; typ++ {
+			for _, bl := range []int{65536, 0x012345} {
+				if bl != 65536 && !thorough {
+					continue
+				}
+				body := make([]byte, bl)
+				for i := range body {
+					body[i] = byte(i*7 + typ)
+				}
+				f := specFrame{typ: typ, verify: 1, cmd: 9, rid: 0x01020304, to: 0x0506, st: 7, body: body, nonce: 0x1112131415161718, sig: rg.bytes(16)}
+				if version == 2 {
+					f.md = append(encStr([]byte("k")), encStr([]byte("v"))...)
+				}
+				frame := specEncode(version, f)
+				c := len(frame)
+				for _, pre := range []int{c - 20, c - 19, c - 18, c - 17, c - 16, c - 15, c - 14, c - 13, c - 12, c - 11, c - 10, c - 9, c - 8, c - 7, c - 6, c - 5, c - 4, c - 3, c - 2, c - 1, c, 1, 2, 3, 9, 17, 24, 25} {
+					streamCase(version, [][]byte{frame}, nil, nil, c, pre, []int{len(frame)}, "stream/wrap-offset-long-body")
+				}
+			}
+		}
+	}
 	return map[string]interface{}{}
 }
 
